@@ -589,6 +589,11 @@ func faultCases(o *drv.Out) {
 			case 6:
 				s.trunc(o.Rng.Intn(l), o.Rng.Intn(2) == 0)
 				desc += "trunc "
+				k = 99 // the stream has ended (possibly inside a frame): only whole frames may still be spliced in
+				if o.Rng.Intn(2) == 0 {
+					s.replay(o.Rng.Intn(l+1), s.wire.Len())
+					desc += "replay-after-end "
+				}
 			default:
 				s.write(o.Rng.Intn(256), randSize(o))
 				desc += "write "
